@@ -303,9 +303,17 @@ def greedy_action(agent, obs):
     if name in ("MADDPG", "MATD3"):
         return agent.get_action(obs, training=False)
     if name in ("NeuralUCB", "NeuralTS"):
-        # bandit get_action mutates sigma_inv and (TS) samples: use the actor's mean prediction
+        # the real decision path (one context row per arm); it updates sigma_inv, which both sides of a
+        # comparison do alike.  The actor's predictions are returned as well.
+        st = torch.get_rng_state()
+        torch.manual_seed(1234)
+        try:
+            act = agent.get_action(obs)
+        finally:
+            torch.set_rng_state(st)
         with torch.no_grad():
-            return a.actor(a.preprocess_observation(obs)).cpu().numpy()
+            pred = a.actor(a.preprocess_observation(obs)).cpu().numpy()
+        return (np.asarray(act), pred)
     if name in ("PPO", "IPPO"):
         # stochastic policies: the public get_action under a fixed RNG state (action, log-prob, entropy, value)
         st = torch.get_rng_state()
@@ -323,6 +331,8 @@ def probe_obs(agent, n: int = 5, seed: int = 123):
     rng = np.random.default_rng(seed)
     if algo_name(agent) in MULTI:
         return {i: sample_obs(sp, n, rng) for i, sp in zip(a.agent_ids, a.observation_spaces)}
+    if algo_name(agent) in ("NeuralUCB", "NeuralTS"):
+        n = int(a.action_dim)  # a bandit context has one row per arm
     return sample_obs(a.observation_space, n, rng)
 
 
